@@ -65,6 +65,7 @@ type Options struct {
 	Seed     uint64
 	Child    string // path to vchild binary
 	VerifDir string
+	OutDir   string // evidence and replays go here (VerifDir when empty): runs against another tree must not overwrite the evidence of /repo
 	WorkDir  string // scratch for logs
 	Replay   string
 	Shards   int
@@ -812,8 +813,11 @@ func (r *runner) finish(nsh int, wall time.Duration) int {
 
 	unlisted, known := 0, 0
 	var knownSeen []string
-	os.RemoveAll(filepath.Join(r.o.VerifDir, "replays", r.o.Prop))
-	os.MkdirAll(filepath.Join(r.o.VerifDir, "replays", r.o.Prop), 0755)
+	if r.o.OutDir == "" {
+		r.o.OutDir = r.o.VerifDir
+	}
+	os.RemoveAll(filepath.Join(r.o.OutDir, "replays", r.o.Prop))
+	os.MkdirAll(filepath.Join(r.o.OutDir, "replays", r.o.Prop), 0755)
 	for _, k := range vkeys {
 		g := viol[k]
 		if f, ok := open[k]; ok {
@@ -824,7 +828,7 @@ func (r *runner) finish(nsh int, wall time.Duration) int {
 		}
 		unlisted++
 		h := sha1.Sum([]byte(k))
-		rp := filepath.Join(r.o.VerifDir, "replays", r.o.Prop, fmt.Sprintf("%x.json", h[:6]))
+		rp := filepath.Join(r.o.OutDir, "replays", r.o.Prop, fmt.Sprintf("%x.json", h[:6]))
 		rep := map[string]interface{}{
 			"property": r.o.Prop, "tier": r.o.Tier, "seed": r.o.Seed, "index": g.first.Index,
 			"shard": g.first.Shard, "nshards": nsh, "key": k, "msg": g.first.Msg, "case": g.first.Case, "count": g.n,
@@ -865,7 +869,7 @@ func (r *runner) finish(nsh int, wall time.Duration) int {
 		cov["disagreements_checked"] = sum.Obs["disagreements_checked"]
 	}
 	if len(sum.Samples) == 0 {
-		cov["samples"] = []interface{}{}
+		cov["samples"] = []interface{}{map[string]string{"note": "no worker finished its shard, so no sample was handed over"}}
 	}
 	ev := map[string]interface{}{
 		"property_id": r.o.Prop,
@@ -878,8 +882,8 @@ func (r *runner) finish(nsh int, wall time.Duration) int {
 		"violations":  unlisted,
 	}
 	b, _ := json.MarshalIndent(ev, "", " ")
-	os.MkdirAll(filepath.Join(r.o.VerifDir, "evidence"), 0755)
-	os.WriteFile(filepath.Join(r.o.VerifDir, "evidence", r.o.Prop+".json"), b, 0644)
+	os.MkdirAll(filepath.Join(r.o.OutDir, "evidence"), 0755)
+	os.WriteFile(filepath.Join(r.o.OutDir, "evidence", r.o.Prop+".json"), b, 0644)
 
 	fmt.Printf("SUMMARY property=%s tier=%s seed=%d cases=%d/%d evaluations=%d distinct_nontrivial=%d skipped=%d violations=%d known=%d inconclusive=%d wall=%.1fs\n",
 		r.o.Prop, r.o.Tier, r.o.Seed, sum.Cases, r.n, sum.Evals, distinct, sum.Skips, unlisted, known, len(ikeys), wall.Seconds())
